@@ -113,6 +113,11 @@ def tree_derived_sets(prog: Program, fn: Func) -> Dict[str, str]:
             if v is None:
                 continue
             t = norm(v)
+            # follow locals that are bound once (names = core.walk(root, ast.Name); used = {n.id for n in names})
+            for nm in names_in(v):
+                ds = [d for _, d in assignments(fn, nm) if d is not None]
+                if len(ds) == 1 and nm != name:
+                    t += " <- " + norm(ds[0])
             complete = any(s in t for s in TREE_NAME_SOURCES) or ("core.walk(" in t and "ast.Name" in t and ".id" in t) \
                 or ("ast.walk(" in t and ".id" in t)
             partial = ("iter_funcdefs(" in t or "iter_classdefs(" in t or "iter_assignments(" in t or "core.walk(" in t) and (".name" in t or ".id" in t or ".arg" in t)
